@@ -11,7 +11,7 @@ and `bwt = bwtRef t sa`:
 Proof by counting: the row of a position is the number of smaller suffixes; these are split by their first symbol
 (smaller than c: `less`; equal to c: as many as there are rows r' < r with bwt[r'] = c).
 -/
-namespace RbV.LF
+namespace RbV.LFMap
 open RbV RbV.Kasai
 
 /-- cyclic predecessor of a position -/
@@ -322,4 +322,4 @@ theorem lf_mapping (t sa : List Nat) (h : Sorted t sa) (hs : Single t) (r : Nat)
       simp only [decide_eq_true_eq, Bool.and_eq_true] at hboth
       omega
 
-end RbV.LF
+end RbV.LFMap
